@@ -342,6 +342,11 @@ func runC12(r *core.Run) {
 	if _, _, err := data.ReadI2PString(nil); err == nil {
 		bad("short-input", "ReadI2PString", "empty input accepted")
 	}
+	hd := 3
+	if !r.Quick() {
+		hd = 4
+	}
+	c12History(r, hd)
 	r.Sample(map[string]any{"fn": "NewIntegerFromInt", "value": 65535, "width": 2, "bytes": "ffff"})
 	r.Sample(map[string]any{"fn": "NewIntegerFromInt", "value": 65536, "width": 2, "expect": "error"})
 	r.Sample(map[string]any{"fn": "ReadI2PString", "declared": 255, "actual": 254, "expect": "error"})
